@@ -2108,6 +2108,21 @@ impl<'a, R: FileManager> FrontendCtx<'a, R> {
         Ok(args)
     }
 
+    // A declaration is read in its own scope: the type parameters and mapped-type variables of the
+    // place that refers to it must not capture names inside it (`type T = number; type Inner = { v: T };
+    // type Wrap<T> = { inner: Inner }` - `Inner` is the same type wherever it is first reached from).
+    fn extract_addressed_type_in_own_scope(
+        &mut self,
+        runtype_name: &RuntypeName,
+        type_args: Vec<Runtype>,
+        anchor: &Anchor,
+    ) -> Res<Runtype> {
+        let outer_scope = std::mem::take(&mut self.type_application_stack);
+        let ty = self.extract_addressed_type(runtype_name, type_args, anchor);
+        self.type_application_stack = outer_scope;
+        ty
+    }
+
     fn extract_named_type_with_args(
         &mut self,
         type_name: &TsEntityName,
@@ -2121,7 +2136,7 @@ impl<'a, R: FileManager> FrontendCtx<'a, R> {
             self.get_runtype_name_from_ts_entity_name(type_name, file.clone(), visibility, anchor)?;
         if fat.is_builtin() {
             // it won't be recursive if it's builtin, and we don't need to write it's definition
-            return self.extract_addressed_type(&fat, type_args, anchor);
+            return self.extract_addressed_type_in_own_scope(&fat, type_args, anchor);
         }
         let rt_uuid = RuntypeUUID {
             ty: fat.clone(),
@@ -2136,7 +2151,7 @@ impl<'a, R: FileManager> FrontendCtx<'a, R> {
         }
         self.partial_validators.insert(rt_uuid.clone(), None);
 
-        let ty = self.extract_addressed_type(&fat, type_args, anchor);
+        let ty = self.extract_addressed_type_in_own_scope(&fat, type_args, anchor);
         match ty {
             Ok(ty) => self.insert_definition(rt_uuid.clone(), ty),
             Err(e) => {
